@@ -29,7 +29,7 @@ TRUSTED_BASE = [
 
 
 def prove_function(book, c, tier):
-    out = {"name": "%s:%s" % (c.file, c.qualname), "file": c.file, "sha256": c.sha256, "lines": c.lines, "obligations": [],
+    out = {"name": "%s:%s" % (c.file, getattr(c, "label", None) or c.qualname), "file": c.file, "sha256": c.sha256, "lines": c.lines, "obligations": [],
            "dropped": [], "paths": 0}
     if c.node is None:
         out["obligations"].append({"name": c.qualname + "/extract", "status": "undecided", "reason": "STALE-CONTRACT: function not found in " + c.file})
